@@ -8,3 +8,15 @@ def rule_keyword_types(rep: Report, rid: str) -> None:
 
 def rule_dialect_triple(rep: Report, rid: str) -> None:
     pass
+
+
+def rule_text_extraction(rep, rid):
+    pass
+
+
+def rule_docstring_fsm(rep, rid):
+    pass
+
+
+def rule_reset(rep, rid):
+    pass
